@@ -1973,9 +1973,9 @@ fn configs(r: &Report) -> Vec<Cfg> {
         pins: false,
         nested: false,
         depth: if quick { 4 } else { 5 },
-        probe_depth: if quick { 3 } else { 5 },
+        probe_depth: if quick { 3 } else { 4 },
         prefix: vec![],
-        last_level_settle_fork_only: quick,
+        last_level_settle_fork_only: true,
     });
     v.push(Cfg {
         name: "two-strands",
@@ -1984,10 +1984,10 @@ fn configs(r: &Report) -> Vec<Cfg> {
         max_strands: 2,
         pins: true,
         nested: false,
-        depth: if quick { 4 } else { 6 },
+        depth: if quick { 4 } else { 5 },
         probe_depth: if quick { 2 } else { 4 },
         prefix: vec![Op::Fork { k: 1, src: 0, t: 0 }],
-        last_level_settle_fork_only: true,
+        last_level_settle_fork_only: quick,
     });
     if !quick {
         v.push(Cfg {
@@ -2134,7 +2134,7 @@ fn main() {
     // expanded in parallel; all counters are order-independent sums).
     {
         use rayon::prelude::*;
-        let frac = if r.quick() { 0.5 } else { 0.33 };
+        let frac = if r.quick() { 0.5 } else { 0.45 };
         cfgs.par_iter().for_each(|cfg| run_cfg(&r, cfg, frac));
     }
     for (_, v) in std::mem::take(&mut *SAMPLES.lock().unwrap_or_else(|e| e.into_inner())) {
